@@ -19,6 +19,7 @@ RULE = ('input specs: port trees to depth 3 (quick 2) with every attribute combi
         'inputs: per declared name one of absent / conforming / wrong type / None / {} / nested dict, plus undeclared keys at every level, values '
         'over {1, "s", None, {}, nested dicts, instances of a class hierarchy}; quick: 250 specs x 40 inputs, thorough: 4000 specs x 60; '
         'distinct by (spec, inputs); non-trivial when the spec has >=2 ports')
+RULE += ('; also: namespaces given as OrderedDict / UserDict / read-only mappings, falsy non-mapping namespace values, port attributes set after declaration, one-argument validators, validators objecting to the empty mapping, the same spec reached through expose_inputs()')
 ASSUMPTIONS = ['attribute assignment on AttributesFrozendict does not change the mapping and is not judged',
                'specs whose non-callable default violates the port itself are rejected at definition time and skipped',
                'reference model written from the statement and documentation']
